@@ -201,8 +201,11 @@ namespace igris
                     // rnrnrnrn
                     if ((_last == '\n' || _last == '\r') && _last != c)
                     {
+                        // second half of a CR LF / LF CR pair: swallowed
+                        // once. Return here, the common exit would store it
+                        // as the last character again.
                         _last = 0;
-                        retcode = READLINE_NOTHING;
+                        return READLINE_NOTHING;
                     }
                     else
                     {
